@@ -196,15 +196,30 @@ def parseU64Digits (c : Cfg) (k : Comp) (b : Bytes) (m step : Nat) : Except Err 
 
 /-! ## `parse_number`, phase by phase -/
 
+/-- SWITCH for the open finding C12-base-prefix-swallows-leading-zero (and its views C08/C11/C15-…).
+`false` (default) = `parse_number` of the current /repo: a leading `0` is consumed as the start of a base prefix and
+`is_prefix = true` even when the prefix character does not follow.
+`true` = /repo with `fixes/C12-base-prefix-swallows-leading-zero.diff` applied: the cursor in front of the `0` is
+remembered, `is_prefix = true` only when the prefix character follows, otherwise `iter.set_cursor(prefix_start)`.
+Flip it when the repair is committed in /repo (the theorems that must change then are listed in `Props/C12Prefix.lean`). -/
+def prefixRepair : Bool := false
+
 /-- base-prefix handling (`format` only). Returns `is_prefix` and the advanced `Bytes`. -/
 def prefixPhase (c : Cfg) (b : Bytes) : Except Err (Bool × Bytes) :=
   if c.feats.format && c.basePrefix ≠ 0 then do
-    let (zero, b) ← readIfValueCased c .integer 48 b
+    let (zero, b1) ← readIfValueCased c .integer 48 b
     if zero then
-      let (hit, b) ← readIfValue c .integer c.basePrefix c.caseSensitiveBasePrefix b
-      if hit && b.isBufferEmpty && c.requiredIntegerDigits then .error (.err "EmptyInteger" b.index)
-      else pure (true, b)
-    else pure (false, b)
+      let (hit, b2) ← readIfValue c .integer c.basePrefix c.caseSensitiveBasePrefix b1
+      if prefixRepair then
+        -- repaired: `if read_if_value(prefix) { is_prefix = true; … } else { unsafe { iter.set_cursor(prefix_start) } }`
+        if hit then
+          if b2.isBufferEmpty && c.requiredIntegerDigits then .error (.err "EmptyInteger" b2.index) else pure (true, b2)
+        else if b.index ≤ b2.slc.length then pure (false, { b2 with index := b.index })
+        else if c.debug then .error (.panic "set_cursor: index > buffer_length") else .error (.fault "set_cursor")
+      else
+        if hit && b2.isBufferEmpty && c.requiredIntegerDigits then .error (.err "EmptyInteger" b2.index)
+        else pure (true, b2)
+    else pure (false, b1)
   else pure (false, b)
 
 /-- `start.as_slice().get_unchecked(..n)` with its `debug_assert` -/
